@@ -37,6 +37,7 @@ pub const S_COUNT: u32 = 8;
 pub const S_LEDGER: u32 = 16;
 pub const S_COST: u32 = 32;
 pub const S_PANIC: u32 = 64;
+pub const S_VISITS: u32 = 128;
 pub const S_ALL: u32 = 127;
 pub static SOFT_MASK: AtomicU32 = AtomicU32::new(S_ALL);
 
@@ -49,6 +50,7 @@ pub fn soft_class(kind: &str) -> u32 {
         "ledger-mismatch" | "stale-record" | "asymmetric-record" => S_LEDGER,
         "traced-unlinked" | "alloc-unlinked" => S_COST,
         "panic-not-propagated" => S_PANIC,
+        "revisit" => S_VISITS,
         _ => 0,
     }
 }
@@ -77,6 +79,7 @@ pub fn soft_mask_for(profile: &str) -> u32 {
         "C11" => S_WEAK | S_COUNT | S_PANIC,
         "C12" => S_LEAK | S_COUNT | S_LEDGER | S_COLLECT,
         "C14" => S_COST,
+        "C15" => S_VISITS,
         _ => 0,
     }
 }
@@ -208,6 +211,7 @@ pub fn attribute(kind: &str, out: &mut [&'static str; 6]) -> usize {
         "order-dependence" => push("C08", &mut n),
         "panic-not-propagated" => push("C11", &mut n),
         "traced-unlinked" | "alloc-unlinked" => push("C14", &mut n),
+        "revisit" => push("C15", &mut n),
         _ => push("C02", &mut n),
     }
     if script {
